@@ -40,6 +40,10 @@ witnesses are replayed on the real code from corpus/C05/.
   verdict.  `passwordCheck_list_iff` / `passwordCheck_file_iff` spell the check out:
   response = `enc pw challenge` for a configured `pw`; view-only iff the first matching index is
   `≥ authPasswdFirstViewOnly`; the file form never yields view-only.
+* `inbound_never_exempt`, `auth_sound_inbound` — the exemption flag `cl->reverseConnection` is set
+  exactly on client records created by a SUCCESSFUL rfbReverseConnection, whatever reverse
+  connections were attempted (failed ones, `Ev.reverseFailed`, have no effect at all); hence
+  `auth_sound` for every inbound client, stated with the history (`origin`) instead of the flag.
 * `step_sound` — one call of rfbProcessClientMessage with ANY registered handlers (TightVNC type 16,
   application handlers satisfying `AppOk`) admits a connection that has to authenticate only with
   the proof: no path through a registered security type reaches INITIALISATION without it.
@@ -95,6 +99,30 @@ theorem auth_sound (env : Env) (happ : AppOk env) (screens : List Screen) (evs :
     · rcases hst with h' | h' | h' <;> rw [h'] at h <;> cases h
     · exact hc1 h
     · exact hc2 h
+
+/-- **An inbound client is never exempt from authentication**, whatever the history of
+reverse-connection attempts (successful ones, failed ones, on any screen), of other connections and
+of handler registrations: in every reachable state the flag the authentication code reads
+(`cl->reverseConnection`) is set exactly on the client records created by a successful
+rfbReverseConnection.  (Holds for the original code as well: `fixed` is arbitrary.) -/
+theorem inbound_never_exempt (fixed : Bool) (env : Env) (screens : List Screen) (evs : List Ev) (c : Conn)
+    (hc : c ∈ (run fixed env screens {} evs).conns) :
+    (c.origin = .inbound → c.reverse = false) ∧ (c.reverse = true ↔ c.origin = .reverse) := by
+  have h : ExemptOk c := run_exempt fixed env screens evs {} (by intro c hc; simp at hc) c hc
+  refine ⟨fun hi => ?_, h⟩
+  cases hr : c.reverse with
+  | false => rfl
+  | true => have := h.mp hr; rw [hi] at this; cases this
+
+/-- **Soundness in terms of the history**: `auth_sound` for every client record that was created by an
+inbound connection — no hypothesis about the flag. -/
+theorem auth_sound_inbound (env : Env) (happ : AppOk env) (screens : List Screen) (evs : List Ev) (c : Conn)
+    (scr : Screen) (hc : c ∈ (run true env screens {} evs).conns) (hs : screens[c.screen]? = some scr)
+    (hpw : scr.pw ≠ .none) (hin : c.origin = .inbound) (hadm : Admitted c) :
+    ∃ resp vo, c.resp = some resp ∧ Msg.challenge c.challenge ∈ c.sent ∧
+      passwordCheck env scr.pw c.challenge resp = some vo ∧ c.viewOnly = vo :=
+  auth_sound env happ screens evs c scr hc hs hpw
+    ((inbound_never_exempt true env screens evs c hc).1 hin) hadm
 
 /-- what the list checker accepts: the response is the encryption of the challenge under a
 configured password; the verdict is "view-only" iff the *first* such password sits at an index
@@ -480,6 +508,19 @@ example :
     ((getConn s 4).map (fun c => (c.st, c.isOpen, c.sent)) =
       some (.sec, false, [.appMarker, .secTypes [2, 30, 16], .version])) := by
   decide +kernel
+
+/-- failed and successful reverse connections (on the password-less and on the password screen), then an
+inbound viewer of the password screen who chooses security type 1: it is offered VNC authentication
+only and is refused; the record made by the successful reverse connection is the only exempt one -/
+example :
+    let s := run true exEnv exScreens {}
+      [.reverseFailed 1, .reverseFailed 0, .connect 5 0 true, .reverseFailed 0,
+       .connect 6 0 false, .recv 6 [82, 70, 66, 32, 48, 48, 51, 46, 48, 48, 56, 10, 1, 1], .proc 6, .proc 6, .proc 6,
+       .recv 5 [82, 70, 66, 32, 48, 48, 51, 46, 48, 48, 56, 10, 1, 1], .proc 5, .proc 5, .proc 5]
+    ((getConn s 6).map (fun c => (c.origin, c.reverse, c.st, c.isOpen, c.sent)) =
+      some (.inbound, false, .sec, false, [.secTypes [2], .version])) ∧
+    ((getConn s 5).map (fun c => (c.origin, c.reverse, c.st)) = some (.reverse, true, .normal)) := by
+  decide
 
 /-- asking for "no authentication" inside the TightVNC negotiation on a password screen is refused -/
 example :
